@@ -376,7 +376,7 @@ func c05Phase(x *sched.Exec, thread int, tau int, objPath string, nthreadsteps [
 		switch {
 		case strings.HasPrefix(l, "remove "+objPath) && (len(l) == len("remove "+objPath)):
 			last = "unlinked"
-		case strings.HasPrefix(l, "linkat -> "), strings.HasPrefix(l, "rename ") && strings.HasSuffix(l, "-> "+objPath):
+		case l == "linkat -> "+filepath.Base(objPath), strings.HasPrefix(l, "rename ") && strings.HasSuffix(l, "-> "+objPath):
 			last = "published"
 		case strings.HasPrefix(l, "setxattr "+objPath+" "), strings.HasPrefix(l, "removexattr "+objPath+" "):
 			if last == "published" || last == "published+attrs" {
